@@ -57,15 +57,16 @@ def gen_cases(tier, seed):
         heavy = name in ('t4_2', 't2_3', 'p0_3_oo', 'p0_3_ov', 'p0_3_vv',
                          't1_3', 't3_2')
         for fully in (True, False):
-            variants = ['default', 'renamed', 'renamed'] if not heavy or \
-                not fully else ['default', 'renamed']
+            variants = ['default', 'renamed', 'shift1', 'shift2', 'shift3'] \
+                if not heavy or not fully else ['default', 'shift2']
             if tier == 'thorough':
                 variants = variants + ['renamed'] * 3
             for v in variants:
                 if name == 't4_2':
                     dims = (4, 4) if tier == 'thorough' else (2, 2)
-                elif name in AMPS and AMPS[name][1] == 3:
-                    dims = (3, 3)
+                elif name in ('t3_2', 't2_3', 't1_3', 'p0_3_oo', 'p0_3_ov',
+                              'p0_3_vv'):
+                    dims = (3, 3)   # triples must exist
                 else:
                     dims = r.choice([(3, 3), (2, 3), (3, 2)]) \
                         if name not in MISC else r.choice([(2, 2), (2, 3),
@@ -91,6 +92,20 @@ def index_names(case):
     default = list(it.default_idx)
     if case['variant'] == 'default':
         return default
+    if case['variant'].startswith('shift'):
+        # names taken from the low end of the alphabet, shifted: these collide
+        # with the internal contracted index names of the definitions
+        k = int(case['variant'][5:])
+        out = []
+        no = nv = 0
+        for d in default:
+            if d[0] in 'ijklmno':
+                out.append('ijklmno'[(no + k) % 7])
+                no += 1
+            else:
+                out.append('abcdefgh'[(nv + k) % 8])
+                nv += 1
+        return out
     r = rng_for(case['hseed'], 'idx')
     out = []
     for d in default:
